@@ -31,6 +31,8 @@ type c07Msg struct {
 	Depth    int    `json:"depth,omitempty"`     // exec nesting depth (>=1)
 	Inner    string `json:"inner,omitempty"`     // innermost message kind of an exec
 	GrantURL string `json:"grant_url,omitempty"` // generic authorisation target
+	// Kids, when present, makes an exec a tree: the exec carries these messages (each may be an exec again)
+	Kids []c07Msg `json:"kids,omitempty"`
 }
 
 type c07Shape struct {
@@ -78,11 +80,42 @@ func genC07Shape(t *rapid.T) c07Shape {
 			return c07Msg{Kind: "grant", GrantURL: rapid.SampledFrom(c07URLs).Draw(t, "url")}
 		}
 	}
-	n := 1
-	if rapid.IntRange(0, 4).Draw(t, "multi") == 4 {
-		n = rapid.IntRange(0, 3).Draw(t, "nmsgs")
+	// exec trees: 1-3 messages per exec, nested up to 5 levels, mixing clean and disabled leaves and grants
+	var genTree func(depth int, label string) c07Msg
+	genList := func(depth int, label string, n int) []c07Msg {
+		var out []c07Msg
+		for i := 0; i < n; i++ {
+			l := fmt.Sprintf("%s_%d", label, i)
+			switch k := rapid.IntRange(0, 9).Draw(t, l+"k"); {
+			case k <= 3 && depth < 5:
+				out = append(out, genTree(depth+1, l))
+			case k <= 5:
+				out = append(out, c07Msg{Kind: "send"})
+			case k <= 7:
+				out = append(out, c07Msg{Kind: rapid.SampledFrom(kinds).Draw(t, l+"leaf")})
+			default:
+				out = append(out, c07Msg{Kind: "grant", GrantURL: rapid.SampledFrom(c07URLs).Draw(t, l+"url")})
+			}
+		}
+		// screening must cover every sibling: put a harmless exec first half of the time
+		if len(out) >= 2 && rapid.Bool().Draw(t, label+"cleanfirst") {
+			out[0] = c07Msg{Kind: "exec", Kids: []c07Msg{{Kind: "send"}}}
+		}
+		return out
 	}
-	for i := 0; i < n; i++ {
+	genTree = func(depth int, label string) c07Msg {
+		return c07Msg{Kind: "exec", Kids: genList(depth, label, rapid.IntRange(1, 3).Draw(t, label+"n"))}
+	}
+	n := 1
+	switch rapid.IntRange(0, 9).Draw(t, "multi") {
+	case 0, 1:
+		n = rapid.IntRange(0, 3).Draw(t, "nmsgs")
+		for i := 0; i < n; i++ {
+			s.Msgs = append(s.Msgs, genMsg())
+		}
+	case 2, 3:
+		s.Msgs = genList(0, "top", rapid.IntRange(1, 3).Draw(t, "ntop"))
+	default:
 		s.Msgs = append(s.Msgs, genMsg())
 	}
 	// each further dimension deviates from the canonical Ethereum shape with small probability
@@ -178,34 +211,45 @@ func buildC07(c *chain.Chain, s c07Shape, k int, seq, accNum uint64) ([]byte, *e
 		}
 		return nil, fmt.Errorf("bad kind %s", kind)
 	}
-	var msgs []sdk.Msg
-	for _, m := range s.Msgs {
+	var mkMsg func(m c07Msg) (sdk.Msg, error)
+	mkMsg = func(m c07Msg) (sdk.Msg, error) {
 		switch m.Kind {
 		case "exec":
-			inner, err := mkBasic(m.Inner)
-			if err != nil {
-				return nil, nil, err
+			if len(m.Kids) > 0 {
+				var inner []sdk.Msg
+				for _, kid := range m.Kids {
+					im, err := mkMsg(kid)
+					if err != nil {
+						return nil, err
+					}
+					inner = append(inner, im)
+				}
+				ex := authz.NewMsgExec(key.Acc(), inner)
+				return &ex, nil
 			}
-			cur := inner
+			cur, err := mkBasic(m.Inner)
+			if err != nil {
+				return nil, err
+			}
 			for d := 0; d < m.Depth; d++ {
 				ex := authz.NewMsgExec(key.Acc(), []sdk.Msg{cur})
 				cur = &ex
 			}
-			msgs = append(msgs, cur)
+			return cur, nil
 		case "grant":
 			exp := time.Unix(1900000000, 0)
-			g, err := authz.NewMsgGrant(key.Acc(), chain.K((k+1)%c07Keys).Acc(), authz.NewGenericAuthorization(m.GrantURL), &exp)
-			if err != nil {
-				return nil, nil, err
-			}
-			msgs = append(msgs, g)
+			return authz.NewMsgGrant(key.Acc(), chain.K((k+1)%c07Keys).Acc(), authz.NewGenericAuthorization(m.GrantURL), &exp)
 		default:
-			msg, err := mkBasic(m.Kind)
-			if err != nil {
-				return nil, nil, err
-			}
-			msgs = append(msgs, msg)
+			return mkBasic(m.Kind)
 		}
+	}
+	var msgs []sdk.Msg
+	for _, m := range s.Msgs {
+		msg, err := mkMsg(m)
+		if err != nil {
+			return nil, nil, err
+		}
+		msgs = append(msgs, msg)
 	}
 	ct := chain.CosmosTx{Signer: k, Msgs: msgs, Memo: s.Memo, Timeout: s.Timeout, NoSig: s.Sig != "valid"}
 	// fee and gas: canonical = those of the embedded Ethereum tx (or a sane Cosmos fee)
